@@ -1374,6 +1374,33 @@ def pfmOracle (s : Pfm3) (ms : List (Manifold3 Float)) : String :=
   | none => "pass"
 
 
+/-! #### `contact_manifold_pfm_pfm` on a fresh manifold, GJK answer and edge features observed -/
+structure PfmG where
+  s : Pfm3
+  pos12 : Iso3 Float
+  /-- `none`: GJK did not return closest points, or a support feature is not an edge -/
+  obs : Option (V3 Float × V3 Float × V3 Float × V3 Float × V3 Float × V3 Float × V3 Float × Float × Float)
+def ppfmg : P PfmG := do
+  let k ← pnat; let a ← pv3; let b ← pv3; let pr ← pf; let p ← piso3
+  let obs ← (do
+      let f ← pbool
+      if f then do
+        let p1 ← pov3; let p21 ← pov3; let dir ← pov3; let e1a ← pov3; let e1b ← pov3; let e2a ← pov3; let e2b ← pov3
+        let br1 ← pfo; let br2 ← pfo
+        pure (some (p1, p21, dir, e1a, e1b, e2a, e2b, br1, br2))
+      else pure none) <|> pure none
+  pure ⟨⟨k, a, b, pr, [p], []⟩, p, obs⟩
+
+def pfmgOracle (g : PfmG) (m : Manifold3 Float) : String :=
+  match g.obs with
+  | none => "skip not-edge-edge"
+  | some (p1, p21, _, _, _, _, _, _, _) =>
+    if m.points.length > 3 then "fail more-than-three-contacts" else
+    match manifoldOracle3 (pfmShapes g.s) g.pos12 g.s.pred m none 0 false with
+    | some r =>
+      if fv3 p1 == fv3 p21 then s!"fail exact-touching-gjk-epa-degenerate {r}" else s!"fail {r}"
+    | none => "pass"
+
 def handler (fn : String) : Option Handler :=
   match fn with
   | "tuc3" => some {
@@ -1504,6 +1531,18 @@ def handler (fn : String) : Option Handler :=
                                 pure (String.intercalate " " (toString cs.length :: cs.map fcontact3))) a
       oracle := fun a o => match run pee3 a with
         | some e => withOut (plist pocontact3) o (ee3Oracle e)
+        | none => "skip bad-args" }
+  | "pfmg3" => some {
+      model := fun a => match run ppfmg a with
+        | some g => (match g.obs with
+          | none => some "skip"
+          | some (p1, p21, dir, e1a, e1b, e2a, e2b, br1, br2) =>
+            some (fman3 (pfmPfmEdgeGiven orthonormalBasis3 ulpsEqF g.pos12 p1 p21 dir e1a e1b e2a e2b br1 br2)))
+        | none => none
+      oracle := fun a o => match run ppfmg a with
+        | some g => (match g.obs with
+          | none => "skip not-edge-edge"
+          | some _ => withOut poman3 o (pfmgOracle g))
         | none => "skip bad-args" }
   | "pfm3" => some {
       model := fun _ => some "oracle-only"
